@@ -123,6 +123,61 @@ func (c *Check) clientRecovery(rule string) {
 	for _, f := range rec {
 		c.Sites++
 		info := f.Pkg.TypesInfo
+		// R0: what is learnt from one event is not carried to the next — every variable that is assigned (or has its address
+		// taken) inside the loop over the block's events is declared inside that loop. A "found" flag or a decoded list that
+		// outlives its event makes a later event of another context pass for the issue event of the wanted one.
+		ast.Inspect(f.Body, func(n ast.Node) bool {
+			r, ok := n.(*ast.RangeStmt)
+			if !ok || !isEventSlice(info.TypeOf(r.X)) {
+				return true
+			}
+			carried := map[string]token.Pos{}
+			note := func(id *ast.Ident) {
+				v, _ := info.Uses[id].(*types.Var)
+				if v == nil || v.IsField() {
+					return
+				}
+				if v.Pos() >= r.Body.Pos() && v.Pos() <= r.Body.End() {
+					return
+				}
+				if _, dup := carried[v.Name()]; !dup {
+					carried[v.Name()] = id.Pos()
+				}
+			}
+			ast.Inspect(r.Body, func(m ast.Node) bool {
+				switch s := m.(type) {
+				case *ast.AssignStmt:
+					for _, l := range s.Lhs {
+						if id, ok := ast.Unparen(l).(*ast.Ident); ok && s.Tok != token.DEFINE {
+							note(id)
+						}
+					}
+				case *ast.IncDecStmt:
+					if id, ok := ast.Unparen(s.X).(*ast.Ident); ok {
+						note(id)
+					}
+				case *ast.UnaryExpr:
+					if s.Op == token.AND {
+						if id, ok := ast.Unparen(s.X).(*ast.Ident); ok {
+							note(id)
+						}
+					}
+				}
+				return true
+			})
+			var names []string
+			for k := range carried {
+				names = append(names, k)
+			}
+			sort.Strings(names)
+			pos := r.Pos()
+			if len(names) > 0 {
+				pos = carried[names[0]]
+			}
+			c.req(len(names) == 0, rule, unitConstruct(f, "per-event-state"), pos,
+				"variables written while examining one end-block event are declared inside the loop over the events"+condStr(len(names) > 0, ": carried across events: "+strings.Join(names, ", ")))
+			return false
+		})
 		// R1/R2: the scan of the block's events looks at every event — it is left only with the request found or an error
 		ast.Inspect(f.Body, func(n ast.Node) bool {
 			r, ok := n.(*ast.RangeStmt)
